@@ -24,6 +24,7 @@ import (
 	"fmt"
 	"strings"
 	"time"
+	"unicode/utf8"
 
 	"seehuhn.de/go/pdf"
 	"seehuhn.de/go/pdf/zzverif/engine/ev"
@@ -142,7 +143,11 @@ func (rn *runner) one(c Case) {
 
 func (c *Case) describe() string {
 	if c.Dir == "read" {
-		return fmt.Sprintf("reference-written R%d V%d %d bits aes=%v header %s user %q owner %q P %#x meta %s id %s hex=%v ownerFirstN=%v", c.R, c.V, c.KeyBits, c.AES, c.Version, c.User, c.Owner, c.Perm, c.Meta, c.ID, c.Hex, c.OwnerN)
+		s := fmt.Sprintf("reference-written R%d V%d %d bits aes=%v header %s user %q owner %q P %#x meta %s id %s hex=%v ownerFirstN=%v", c.R, c.V, c.KeyBits, c.AES, c.Version, c.User, c.Owner, c.Perm, c.Meta, c.ID, c.Hex, c.OwnerN)
+		if c.Note != "" {
+			s += " (" + c.Note + ")"
+		}
+		return s
 	}
 	s := fmt.Sprintf("version %s user %q owner %q perm %#x meta %s id %s graph %s", c.Version, c.User, c.Owner, c.Perm, c.Meta, c.ID, c.Graph)
 	if c.Graph == "num" {
@@ -153,6 +158,9 @@ func (c *Case) describe() string {
 	}
 	if c.Order != nil {
 		s += " write order " + c.Order.String()
+	}
+	if c.Note != "" {
+		s += " (" + c.Note + ")"
 	}
 	return s
 }
@@ -264,6 +272,10 @@ func selfTest(r *ev.Run) bool {
 		r.Infra("serialiser self-test: " + err.Error())
 		return false
 	}
+	if err := longPwSelfTest(); err != nil {
+		r.Infra(err.Error())
+		return false
+	}
 	return true
 }
 
@@ -275,7 +287,7 @@ func Run(tier string) int {
 	}
 	r := ev.New("C10", tier, "exploration", budget)
 	rn := &runner{r: r, full: fullGraph(), num: numGraph(), rev: reverseGraph()}
-	r.Rule("a case is one file. Direction 'write': (version, user password, owner password, permission set, metadata mode, ID mode[, base object number and generation][, write order = order of the Put/OpenStream/Write/Close/WriteCompressed calls]) written by the Writer and judged by ref/pdffile + ref/stdsec; direction 'read': (revision, V, key length, cipher, passwords, P, metadata mode, ID mode, string syntax) written by ref/stdsec + the serialiser of this package and opened by the Reader with the user and with the owner password. evaluations = files written (+ Reader opens in direction 'read'); distinct = distinct tuples of encrypted files with the passwords replaced by their prepared form (passwords the standard's preparation identifies count once); files the Writer refuses are counted under rejected:* and are not distinct cases")
+	r.Rule("a case is one file. Direction 'write': (version, user password, owner password [drawn from the reduced alphabet or from the length-structure family around the truncation bounds 32 and 127], permission set, metadata mode, ID mode[, base object number and generation][, write order = order of the Put/OpenStream/Write/Close/WriteCompressed calls]) written by the Writer and judged by ref/pdffile + ref/stdsec; direction 'read': (revision, V, key length, cipher, passwords, P, metadata mode, ID mode, string syntax) written by ref/stdsec + the serialiser of this package and opened by the Reader with the user and with the owner password. evaluations = files written (+ Reader opens in direction 'read'); distinct = distinct tuples of encrypted files with the passwords replaced by their prepared form (passwords the standard's preparation identifies count once); files the Writer refuses are counted under rejected:* and are not distinct cases")
 	r.Assume("ref/stdsec (Algorithms 1-13 from ISO 32000-2 7.6 / ISO 32000-1 / Adobe Supplement ExtensionLevel 3 for revision 5) and ref/pdffile are self-tested at start",
 		"Algorithm 3 (c): both the letter (MD5 over 16 bytes) and the de-facto reading (first n bytes) are accepted for /O of revision 3 files with keys shorter than 128 bits; the reading found is reported as an outcome",
 		"crypt filter /Length in bytes or in bits is accepted (table 27 vs. deployed practice)",
@@ -371,6 +383,20 @@ func Run(tier string) int {
 		}
 	}
 	nE := len(jobs) - nA - nB
+	// (f) passwords by length structure (longpw.go): direction 1
+	lpw := longPwWriteJobs(r.Thorough())
+	jobs = append(jobs, lpw...)
+	nF := len(lpw)
+	r.Dim("long_password_truncation_bounds", pwBounds)
+	r.Dim("long_password_rule", "for each bound b: ascii(L) = L ASCII bytes for every L in [b-7, b+8]; char(w,s,t) = s ASCII bytes + one character of UTF-8 width w + t ASCII bytes for every w in 1..4, every start offset s in [b-3, b], every t in the tail lengths; all ASCII prefixes are prefixes of one string")
+	r.Dim("long_password_character_widths", []int{1, 2, 3, 4})
+	r.Dim("long_password_character_start_offsets_relative_to_bound", []int{-3, -2, -1, 0})
+	r.Dim("long_password_tail_lengths", pwTails)
+	r.Dim("long_password_ascii_lengths_relative_to_bound", []int{-7, 8})
+	for _, b := range pwBounds {
+		r.Dim(fmt.Sprintf("long_passwords_bound_%d", b), len(longPasswords(b)))
+	}
+	r.Dim("long_password_roles", ev.Pick(r, pwRoles, append(append([]string{}, pwRoles...), "every (user, owner) pair of the same bound")))
 	// (c) the largest object numbers: cross-reference streams only in the
 	// quick tier (a classic table has 2^24 entries of 20 bytes)
 	bigVersions := ev.Pick(r, []string{"1.5", "1.7", "2.0"}, []string{"1.3", "1.4", "1.5", "1.6", "1.7", "2.0"})
@@ -382,6 +408,10 @@ func Run(tier string) int {
 	}
 	// (d) direction 2
 	rjobs := reverseJobs(r.Thorough())
+	lpr := longPwReadJobs(r.Thorough())
+	rjobs = append(rjobs, lpr...)
+	r.Dim("files_long_password_space_written", nF)
+	r.Dim("files_long_password_space_reference_written", len(lpr))
 	r.Dim("files_config_space", nA)
 	r.Dim("files_number_space", nB)
 	r.Dim("files_big_number_space", len(big))
@@ -447,8 +477,14 @@ func Run(tier string) int {
 	pick(nA+nB, nA+nB+nE, func(c *Case) bool {
 		return c.Version == "1.3" && c.Graph == "num" && c.Num == 65535 && c.Order.Kind == "as-stream"
 	})
-	pick(nA+nB+nE, len(jobs), func(c *Case) bool {
+	pick(nA+nB+nE+nF, len(jobs), func(c *Case) bool {
 		return c.R == 5 && c.User == "ä" && c.Owner == "ab" && c.Meta == "plaintext" && c.Hex
+	})
+	pick(nA+nB+nE, nA+nB+nE+nF, func(c *Case) bool {
+		return c.Version == "2.0" && len(c.User) > 127 && !utf8.RuneStart(c.User[127]) && c.Owner == ""
+	})
+	pick(nA+nB+nE+nF, len(jobs), func(c *Case) bool {
+		return c.Space == "long-passwords" && c.R == 6 && len(c.Owner) > 127 && !utf8.RuneStart(c.Owner[127])
 	})
 	return r.Finish()
 }
